@@ -257,7 +257,7 @@ fn main() {
     let mut meta = Meta::new("exploration", "seeded client/server jar pairs: 2-9 classes per pair, each client-only / server-only / identical / same facts in other bytes / differing (both sides derived from ONE generated model by keeping, dropping and reordering fields, methods and interfaces per side in 10 shapes: interleaving, prefix, suffix, middle, permutation, disjoint, shuffled, all shared, one-sided moved, two shared swapped), placed in net/minecraft, the root package or library-looking packages; resources one-sided / equal / different; directories; MANIFEST.MF; META-INF signature files (.SF .RSA .DSA .EC and look-alikes); jars handed over as NamedMemJar, UnnamedMemJar, ParsedJar, FileJar. A pair is non-trivial if it has a one-sided class or a class whose two sides differ in facts; distinct = distinct multiset of per-class shapes (category; per differing class the numbers of client-only/server-only/shared fields, methods, interfaces (capped at 3), order compatibility, server-only-before-shared)")
         .assume("the independent parser and emitter (harness/cf) implement JVMS chapter 4 correctly; parse(emit(M)) == M is checked for every generated class")
         .assume("the zip crate reads and writes archives correctly (entry names are additionally taken from the harness' own scan of the central directory)")
-        .assume("'bundled server library' = a class that only the server jar has, in a package other than net/minecraft and its sub-packages; 'signature file' = META-INF/*.SF, *.RSA, *.DSA, *.EC (JAR specification); nested or lower-case look-alikes and SIG-* are not judged")
+        .assume("'bundled server library' = a class that only the server jar has, in a package other than net/minecraft and its sub-packages; 'signature file' = META-INF/*.SF and *.RSA (what the Minecraft jars carry and the ported Java JarMerger removes); *.DSA / *.EC blocks, nested or lower-case look-alikes and SIG-* are not judged (kept or removed, counted)")
         .assume("pairs whose class headers differ (version, flags, super class, Deprecated/Synthetic, InnerClasses conflict) are outside the statement: refusals are counted, successful merges are judged on members and interfaces, panics are recorded under their own signature")
         .assume("not judged: entry order, timestamps, MANIFEST.MF content, which side's version of a shared member or of a differing resource is taken, record components / permitted subclasses of differing classes, interface order");
     if replay.is_none() {
@@ -278,7 +278,7 @@ fn main() {
         }
         meta.oblige("all 10 list shapes used", rep.seen_n("shapes") == 10);
         meta.oblige("one-sided marks and unmarked shared members both observed (>= 500 each)", g("marks.one_sided_marked") + g("marks.one_sided_interface_marked") >= 500 || rep.violations.keys().any(|k| k.contains("mark")) );
-        meta.oblige("signature files of all four extensions present in inputs", ["SF", "RSA", "DSA", "EC"].iter().all(|e| g(&format!("entries.signature.{e}")) > 0));
+        meta.oblige("signature files (.SF and .RSA) present in inputs", ["SF", "RSA"].iter().all(|e| g(&format!("entries.signature.{e}")) > 0));
         meta.oblige("manifest, directories and resources on one side and on both (>= 10 each)", ["manifest", "directory", "resource"].iter().all(|k| g(&format!("entries.expected.{k}.in_both_jars")) >= 10 && g(&format!("entries.expected.{k}.client_only")) >= 10 && g(&format!("entries.expected.{k}.server_only")) >= 10));
         meta.oblige("resources with different content on the two sides (>= 20)", g("content.resource.differing.client_taken") + g("content.resource.differing.server_taken") >= 20 || rep.violations.keys().any(|k| k.contains("resource present on both sides")));
         meta.oblige("every jar representation used", ["NamedMem", "UnnamedMem", "Parsed", "NamedAndParsed", "File"].iter().all(|k| g(&format!("jar_kind.{k}")) > 0));
